@@ -5,6 +5,7 @@ This module handles parsing of CSV files and other transaction formats.
 """
 
 import csv
+import math
 import re
 from datetime import datetime
 
@@ -275,8 +276,8 @@ def parse_generic_csv(filepath, format_spec, rules, source_name='CSV',
                 # Negate: flip sign (for credit cards where positive = charge)
                 amount = -amount
 
-            # Skip zero amounts
-            if amount == 0:
+            # Skip zero and non-finite amounts (float() accepts cells like 'nan' or 'inf')
+            if amount == 0 or not math.isfinite(amount):
                 continue
 
             # Track if this is a credit (negative amount = income/refund)
